@@ -43,10 +43,10 @@ func main() {
 	dir, _ := filepath.Abs(*flagDir)
 	pats := flag.Args()
 	cfg := &packages.Config{
-		Mode: packages.NeedName | packages.NeedFiles | packages.NeedSyntax | packages.NeedTypes | packages.NeedTypesInfo | packages.NeedImports | packages.NeedDeps,
-		Dir:  dir,
+		Mode:       packages.NeedName | packages.NeedFiles | packages.NeedSyntax | packages.NeedTypes | packages.NeedTypesInfo | packages.NeedImports | packages.NeedDeps,
+		Dir:        dir,
 		BuildFlags: []string{"-tags=verif"},
-		Env:  append(os.Environ(), "GOFLAGS=-mod=mod", "GOPROXY=off", "GOSUMDB=off", "GOTOOLCHAIN=local"),
+		Env:        append(os.Environ(), "GOFLAGS=-mod=mod", "GOPROXY=off", "GOSUMDB=off", "GOTOOLCHAIN=local"),
 	}
 	pkgs, err := packages.Load(cfg, pats...)
 	if err != nil {
@@ -266,8 +266,10 @@ func (rw *rewriter) rewriteList(list []ast.Stmt) []ast.Stmt {
 	return out
 }
 
-func (rw *rewriter) yield(n ast.Node) ast.Stmt { return &ast.ExprStmt{X: rw.simcall("Yield", rw.site(n))} }
-func (rw *rewriter) resume() ast.Stmt          { return &ast.ExprStmt{X: rw.simcall("Resume")} }
+func (rw *rewriter) yield(n ast.Node) ast.Stmt {
+	return &ast.ExprStmt{X: rw.simcall("Yield", rw.site(n))}
+}
+func (rw *rewriter) resume() ast.Stmt { return &ast.ExprStmt{X: rw.simcall("Resume")} }
 
 func (rw *rewriter) rewriteStmt(st ast.Stmt) []ast.Stmt {
 	switch s := st.(type) {
@@ -489,4 +491,3 @@ func (rw *rewriter) rewriteRange(s *ast.RangeStmt) []ast.Stmt {
 	}
 	return []ast.Stmt{s}
 }
-
